@@ -60,6 +60,7 @@ fn subspec(u: &mut Unstructured, cfg: &GenCfg) -> SubSpec {
         policy: cfg.policies[below(u, cfg.policies.len())],
         fifo: x & 0x80 != 0,
         twin: cfg.twin && x & 0x40 != 0,
+        convert: (x >> 3) % 3,
     }
 }
 
@@ -154,7 +155,7 @@ pub fn vec_case(data: &[u8], cfg: &GenCfg) -> VecCase {
     while !u.is_empty() && ops.len() < 40 {
         ops.push(op(&mut u, cfg));
     }
-    VecCase { capacity, initial, probe: (flags as u32 % 100) < cfg.probe_pct, subs, ops, final_drop: flags & 0x80 != 0, strict: false }
+    VecCase { capacity, initial, probe: (flags as u32 % 100) < cfg.probe_pct, subs, ops, final_drop: flags & 0x80 != 0, strict: false, shared_waker: flags & 0x40 != 0 }
 }
 
 fn wr(u: &mut Unstructured) -> Wr {
@@ -210,5 +211,5 @@ pub fn obs_case(data: &[u8], flavour: Fl) -> ObsCase {
         };
         ops.push(o);
     }
-    ObsCase { flavour, start_shared: f & 1 == 1, init: ((f >> 1) % 3, (f >> 3) % 3), guards: flavour == Fl::Sync && f & 0x40 != 0, ops, strict: false }
+    ObsCase { flavour, start_shared: f & 1 == 1, init: ((f >> 1) % 3, (f >> 3) % 3), guards: flavour == Fl::Sync && f & 0x40 != 0, ops, strict: false, shared_waker: f & 0x20 != 0 }
 }
